@@ -1,10 +1,10 @@
 SPECIFICATION SpecD
 CONSTANTS
   Trees <- QuickTrees
-  MaxConns <- MC123
+  MaxConns <- MC12
   MayFail = TRUE
-  CancelTail = TRUE
-  AwaitCancelled = TRUE
+  CancelTail = FALSE
+  AwaitCancelled = FALSE
   ValidateUpFront = FALSE
 VIEW view
 INVARIANT TypeOK
@@ -18,5 +18,4 @@ INVARIANT FailFast
 INVARIANT RejectedNeverRuns
 INVARIANT OrphansOnlyBehindTail
 INVARIANT NoRunawayAfterSuccess
-INVARIANT QuiescentAfterRaise
 CHECK_DEADLOCK TRUE
